@@ -219,7 +219,12 @@ class L21Norm(Functional):
         x: Union[Array, BlockArray], axis: Union[None, int, Tuple], keepdims: Optional[bool] = False
     ):
         r"""Return the :math:`\ell_2` norm of an array."""
-        return snp.sqrt((snp.abs(x) ** 2).sum(axis=axis, keepdims=keepdims))
+        l2sq = (snp.abs(x) ** 2).sum(axis=axis, keepdims=keepdims)
+        # The derivative of sqrt is infinite at 0: select the value 0 there without evaluating
+        # sqrt, so that groups that are identically zero (e.g. the zero-padded boundary
+        # differences of a non-circular TV norm) give a zero rather than a NaN gradient.
+        nz = l2sq > 0
+        return snp.where(nz, snp.sqrt(snp.where(nz, l2sq, 1.0)), 0.0)
 
     def __call__(self, x: Union[Array, BlockArray]) -> float:
         if isinstance(x, snp.BlockArray) and self.l2_axis is not None:
